@@ -101,8 +101,10 @@ def correspond(tier):
     from . import pipelinex
     ce = pipelinex.suite_real_runs(tier, "C02.e", "evidence")
     c3 = _isolation_suite(tier)
+    from . import psoracles
+    ct = psoracles.suite_same_temperature(tier, "C02")
     from .c01 import _dependency_suites
-    return [c, ce, c2, c3] + _dependency_suites(tier)
+    return [c, ce, c2, c3, ct] + _dependency_suites(tier)
 
 
 def _isolation_suite(tier):
